@@ -39,6 +39,10 @@ pub enum Profile {
     F,
     /// small batch alphabet for schedule exploration
     EB,
+    /// "zoo": shallow sequences over a rich alphabet that crosses the features (named / unnamed systems,
+    /// thread-local systems, barriers, batches with plain / multi controllers dispatching 1-2 times whose
+    /// inner plans contain barriers, thread-local systems, unnamed systems and nested batches)
+    Z { inner_max: usize },
     /// statically typed systems, batches with declaring controllers, thread-local (setup / dispose)
     S,
     /// names needing sanitising / unnamed (C20)
@@ -159,6 +163,7 @@ impl Profile {
             Profile::E { inner_max, rich } => format!("E(batches; inner plans of <= {} ops, rich {})", inner_max, rich),
             Profile::F => "F(thread-local)".to_string(),
             Profile::EB => "EB(small batch alphabet)".to_string(),
+            Profile::Z { inner_max } => format!("Z(feature zoo; inner plans of <= {} ops incl. barriers, thread-local, unnamed, nested / multi batches)", inner_max),
             Profile::S => "S(statically typed systems, declaring controllers, thread-local)".to_string(),
             Profile::N => "N(names)".to_string(),
             Profile::Ill => "Ill(ill-formed calls)".to_string(),
@@ -224,7 +229,10 @@ impl Profile {
                 let names = named_before(prefix);
                 for (r, w) in access {
                     for d in dep_options(&names, false, false) {
-                        out.push((s(name.clone(), r, w, 3, d), false));
+                        out.push((s(name.clone(), r, w, 3, d.clone()), false));
+                        if d.is_empty() {
+                            out.push((s(String::new(), r, w, 3, d), false));
+                        }
                     }
                 }
             }
@@ -260,6 +268,52 @@ impl Profile {
                 for ctrl in [CtrlData::Unit, CtrlData::ReadA, CtrlData::WriteC] {
                     for inner in &inners {
                         out.push((Op::Batch(BatchSpec { name: name.clone(), deps: vec![], ctrl, times: 1, multi: false, fetch_data: false, inner: inner.clone() }), false));
+                    }
+                }
+            }
+            Profile::Z { inner_max } => {
+                for (r, w) in [(vec![], vec![]), (vec![0u8], vec![]), (vec![], vec![0u8]), (vec![], vec![1u8])] {
+                    out.push((s(name.clone(), &r, &w, 3, vec![]), false));
+                    out.push((s(String::new(), &r, &w, 3, vec![]), false));
+                }
+                out.push((Op::Barrier, false));
+                out.push((Op::Tl(SysSpec { name: String::new(), reads: vec![], writes: vec![1], time: 3, deps: vec![] }), false));
+                // inner plans over a small alphabet that includes a barrier, a thread-local and an unnamed system
+                let alpha: Vec<Op> = vec![
+                    s("i0".into(), &[0], &[], 3, vec![]),
+                    s("i1".into(), &[], &[0], 3, vec![]),
+                    s(String::new(), &[], &[1], 3, vec![]),
+                    Op::Barrier,
+                    Op::Tl(SysSpec { name: String::new(), reads: vec![], writes: vec![], time: 3, deps: vec![] }),
+                    Op::Batch(BatchSpec { name: "n".into(), deps: vec![], ctrl: CtrlData::Unit, times: 2, multi: true, fetch_data: false, inner: vec![s("x".into(), &[], &[0], 3, vec![]), Op::Tl(SysSpec { name: String::new(), reads: vec![], writes: vec![], time: 3, deps: vec![] })] }),
+                ];
+                let mut plans: Vec<Vec<Op>> = vec![vec![]];
+                let mut frontier: Vec<Vec<Op>> = vec![vec![]];
+                for _ in 0..*inner_max {
+                    let mut next = Vec::new();
+                    for p in &frontier {
+                        for a in &alpha {
+                            let nm = match a {
+                                Op::Sys(x) => x.name.clone(),
+                                Op::Batch(b) => b.name.clone(),
+                                _ => String::new(),
+                            };
+                            if !nm.is_empty() && named_before(p).contains(&nm) {
+                                continue;
+                            }
+                            let mut q = p.clone();
+                            q.push(a.clone());
+                            next.push(q);
+                        }
+                    }
+                    plans.extend(next.iter().cloned());
+                    frontier = next;
+                }
+                for (ci, ctrl) in [CtrlData::Unit, CtrlData::ReadA, CtrlData::WriteC].into_iter().enumerate() {
+                    for (k, inner) in plans.iter().enumerate() {
+                        let multi = (k + ci) % 2 == 1;
+                        let times = 1 + ((k / 2 + ci) % 2) as u8;
+                        out.push((Op::Batch(BatchSpec { name: if k % 3 == 2 { String::new() } else { name.clone() }, deps: vec![], ctrl, times, multi, fetch_data: false, inner: inner.clone() }), false));
                     }
                 }
             }
